@@ -332,6 +332,11 @@ pub fn prand(tag: u64, n: usize, p: &BigUint) -> Vec<BigUint> {
 /// that agree with p on all limbs above position i, differ at limb i by {-1, +1, +-2^(w-1), set to
 /// 0 / max}, and carry one of five patterns in the limbs below. Every N-byte value < 2^(8N).
 pub fn cmp_family(p: &BigUint, nbytes: usize) -> Vec<BigUint> {
+    cmp_family_at(p, nbytes)
+}
+/// the same boundary classes around an arbitrary comparison constant c (e.g. (p-1)/2, the
+/// constant of "upper half" sign tests)
+pub fn cmp_family_at(p: &BigUint, nbytes: usize) -> Vec<BigUint> {
     let lim = BigUint::one() << (8 * nbytes);
     let mut v: Vec<BigUint> = vec![];
     for w in [32usize, 64] {
@@ -448,5 +453,76 @@ pub fn neg_family_n(p: &BigUint, nbytes: usize, nlow: u32) -> Vec<BigUint> {
             }
         }
     }
+    dedup(v)
+}
+
+/// Values whose limbs cancel under XOR (64-bit and 32-bit views): what a zero / equality test
+/// that folds limbs with `^` instead of `|` mistakes for zero.
+pub fn xor_family(p: &BigUint, nbytes: usize) -> Vec<BigUint> {
+    let mut v: Vec<BigUint> = vec![];
+    let top_bits = p.bits() as usize;
+    for w in [64usize, 32] {
+        let n = nbytes * 8 / w;
+        let mask: u128 = (1u128 << w) - 1;
+        let top_room = top_bits - w * (n - 1); // usable bits of the top limb
+        let top_mask: u128 = (1u128 << (top_room - 1)) - 1;
+        let a_vals: Vec<u128> = vec![1, 2, 0x5555_5555_5555_5555 & mask, 0x0123_4567_89AB_CDEF & mask, mask, mask - 1, 1u128 << (w - 1)];
+        let mk = |limbs: &[u128]| -> BigUint {
+            let mut x = BigUint::zero();
+            for (i, l) in limbs.iter().enumerate() {
+                x += BigUint::from(*l) << (w * i);
+            }
+            x
+        };
+        for a in &a_vals {
+            // (a, a, 0, ...) in every pair of positions below the top limb
+            for i in 0..n - 1 {
+                for j in (i + 1)..n - 1 {
+                    let mut l = vec![0u128; n];
+                    l[i] = *a;
+                    l[j] = *a;
+                    v.push(mk(&l));
+                }
+            }
+            // (a, b, a^b, 0..) and four-limb cancellation including a small top limb
+            let b = 0x0F1E_2D3C_4B5A_6978u128 & mask;
+            if n >= 4 {
+                let mut l = vec![0u128; n];
+                l[0] = *a;
+                l[1] = b;
+                l[2] = *a ^ b;
+                v.push(mk(&l));
+                let t = (*a ^ b) & top_mask;
+                let mut l = vec![0u128; n];
+                l[n - 1] = t;
+                l[0] = *a;
+                l[1] = b;
+                l[2] = *a ^ b ^ t;
+                v.push(mk(&l));
+                let mut l = vec![0u128; n];
+                l[n - 1] = *a & top_mask;
+                l[n - 2] = *a & top_mask;
+                l[0] = b;
+                l[1] = b;
+                v.push(mk(&l));
+            }
+        }
+    }
+    v.retain(|x| x < p && !x.is_zero());
+    dedup(v)
+}
+
+/// the union used as TARGETS for intermediates of the high-level routines
+pub fn target_family(p: &BigUint, nbytes: usize) -> Vec<BigUint> {
+    let half = (p - 1u32) >> 1;
+    let mut v = cmp_family_at(p, nbytes);
+    v.extend(cmp_family_at(&half, nbytes));
+    v.extend(neg_family(p, nbytes));
+    v.extend(xor_family(p, nbytes));
+    for i in 1..8u32 {
+        v.push(BigUint::from(i));
+        v.push(p - i);
+    }
+    v.retain(|x| x < p && !x.is_zero());
     dedup(v)
 }
